@@ -4,7 +4,7 @@ import typing as t
 
 from typelib.codecs import Codec, DecoderT, EncoderT, codec
 from typelib.marshals import AbstractMarshaller, marshal, marshaller
-from typelib.py import compat, refs
+from typelib.py import compat, inspection, refs
 from typelib.unmarshals import AbstractUnmarshaller, unmarshal, unmarshaller
 
 __all__ = (
@@ -40,6 +40,9 @@ def encode(
         encoder: A callable that takes a value and returns a bytes object.
     """
     marshalled = marshal(value=value, t=t)
+    # Bytes-like types are already encoded: carry them as-is, like `codec()` does.
+    if inspection.isbytestype(value.__class__ if t is None else t):
+        return marshalled  # type: ignore[return-value]
     encoded = encoder(marshalled)
     return encoded
 
@@ -57,6 +60,7 @@ def decode(
         value: The value to decode.
         decoder: A callable that takes a bytes object and returns a Python value.
     """
-    decoded = decoder(value)
+    # Bytes-like types are carried as-is, like `codec()` does.
+    decoded = value if inspection.isbytestype(t) else decoder(value)
     unmarshalled = unmarshal(t=t, value=decoded)
     return unmarshalled
